@@ -192,7 +192,9 @@ def r2_counts(ctx) -> None:
         m = ctx.cfn(q, supers=True)        # the method as this class runs it (inherited body, super() calls and hooks seen through)
         ctx.check(any(call_name(x) == callee for x in calls_in(m)), "C16.R2", f"{q.split('.', 2)[2]}: updates the container's count", c.module.path, m.lineno,
                   f"once outputs are set the container handle must learn its output count (via {callee})", m)
-    sp = df.methods["_set_parent_output_count"]
+    _, sp = df.find_method("_set_parent_output_count")        # (wherever in the builder hierarchy it is defined)
+    if sp is None:
+        ctx.broken("anchor vanished: DfBase._set_parent_output_count")
     cnt = sp.args.args[1].arg
     ps = [p for p in ctx.paths(f"{D}._set_parent_output_count") if p.kind != "raise"]
     ok = bool(ps) and all(len(p.find_effect(f"self.parent_node = self.hugr._update_node_outs(self.parent_node, {cnt})")) == 1 for p in ps)
